@@ -15,6 +15,7 @@ def dispatch (j : Json) : R Json := do
   match (← str j "engine") with
   | "seq" => seqEngine j
   | "store" => storeEngine j
+  | "spec" => specEngine j
   | "codec" => codecEngine j
   | "sort" => sortEngine j
   | "auth" => authEngine j
